@@ -255,9 +255,12 @@ func (c *tracingHTTP2Conn) closeStreamLocked(streamID uint32, stream *http2Strea
 	if isRequest {
 		stream.requestTracer.emitUnfinished()
 		stream.builder.add(&RequestBodyEnd{Err: err})
-	} else if stream.responseTracer.builder != nil {
+	} else {
 		stream.requestTracer.emitUnfinished()
-		stream.responseTracer.emitUnfinished()
+		if stream.responseTracer.builder != nil {
+			// (not set if the stream ends, e.g. is reset, before response headers)
+			stream.responseTracer.emitUnfinished()
+		}
 		stream.builder.add(&ResponseBodyEnd{Err: err})
 	}
 }
